@@ -234,7 +234,11 @@ func (x *Exec) heapArr(st *State, key, sort string) string {
 		return t
 	}
 	if st.specHeap != nil {
-		nm := "|hp_" + smtName(key) + "|"
+		pfx := st.specHeap.prefix
+		if pfx == "" {
+			pfx = "hp_"
+		}
+		nm := "|" + pfx + smtName(key) + "|"
 		st.specHeap.heapKeys = append(st.specHeap.heapKeys, key)
 		st.specHeap.heapSort[key] = sort
 		st.heap[key] = nm
@@ -352,6 +356,13 @@ func (x *Exec) load(st *State, p *Pointer, t types.Type) *Value {
 		st.dead = true // nil dereference: the program panics here
 		return x.freshValue(st, t, "nilderef")
 	}
+	if p.Ghost != "" {
+		key := "F|" + typeKey(p.Root) + "|" + p.Ghost
+		v := mkValue(t, func(l Leaf) string {
+			return fmt.Sprintf("(select %s %s)", x.heapArr(st, key+l.Path, l.Sort), p.Base)
+		})
+		return v
+	}
 	if p.Abs {
 		term := fmt.Sprintf("(bat %s %s)", p.Base, p.Idx)
 		st.assume(fmt.Sprintf("(and (<= 0 %s) (<= %s 255))", term, term))
@@ -379,6 +390,9 @@ func (x *Exec) load(st *State, p *Pointer, t types.Type) *Value {
 	}
 	v := mkValue(t, func(l Leaf) string {
 		key := kind + typeKey(p.Root) + "|" + joinPath(prefix, l.Path)
+		if refLeaf(l) {
+			x.refArrays[key] = true
+		}
 		arr := x.heapArr(st, key, l.Sort)
 		if p.Idx != "" {
 			return fmt.Sprintf("(select (select %s %s) %s)", arr, p.Base, p.Idx)
@@ -392,6 +406,15 @@ func (x *Exec) load(st *State, p *Pointer, t types.Type) *Value {
 func (x *Exec) store(st *State, p *Pointer, v *Value) {
 	if p.Nil {
 		st.dead = true
+		return
+	}
+	if p.Ghost != "" {
+		key := "F|" + typeKey(p.Root) + "|" + p.Ghost
+		terms := x.flatten(v)
+		for i, l := range leaves(v.T) {
+			arr := x.heapArr(st, key+l.Path, l.Sort)
+			x.setHeapArr(st, key+l.Path, l.Sort, fmt.Sprintf("(store %s %s %s)", arr, p.Base, terms[i]))
+		}
 		return
 	}
 	if p.Abs {
@@ -443,8 +466,7 @@ func (x *Exec) ptrTerm(p *Pointer) string {
 		return "0"
 	}
 	if p.Cell != nil {
-		name := fmt.Sprintf("celladdr_%d", p.Cell.ID)
-		x.globalDecl(name, fmt.Sprintf("(declare-const %s Int)", name))
+		name := fmt.Sprintf("(iaddr (- %d) 0)", p.Cell.ID)
 		if len(p.Path) == 0 {
 			return name
 		}
@@ -467,9 +489,14 @@ func (x *Exec) ptrTerm(p *Pointer) string {
 
 func (x *Exec) interiorTerm(base string, p *Pointer) string {
 	prefix, _ := pathInfo(p.Root, p.Path)
-	fn := "fieldaddr_" + typeKey(p.Root) + "_" + smtName(prefix)
-	x.globalDecl(fn, fmt.Sprintf("(declare-fun %s (Int) Int)", fn))
-	return fmt.Sprintf("(%s %s)", fn, base)
+	key := typeKey(p.Root) + "|" + prefix
+	id, ok := x.eng.fieldIDs[key]
+	if !ok {
+		id = len(x.eng.fieldIDs) + 1
+		x.eng.fieldIDs[key] = id
+	}
+	// iaddr is injective in both arguments (inverse-function axioms in the preamble)
+	return fmt.Sprintf("(iaddr %s %d)", base, id)
 }
 
 func (x *Exec) funcTerm(v *Value) string {
@@ -556,4 +583,19 @@ func sortedKeys(m map[string]bool) []string {
 	}
 	sort.Strings(ks)
 	return ks
+}
+
+// refLeaf: the leaf holds a reference (pointer, map, channel, backing array, interface payload).
+func refLeaf(l Leaf) bool {
+	if l.Role == "arr" || l.Role == "val" {
+		return true
+	}
+	if l.Role != "" || l.T == nil {
+		return false
+	}
+	switch l.T.Underlying().(type) {
+	case *types.Pointer, *types.Map, *types.Chan:
+		return true
+	}
+	return false
 }
